@@ -13,9 +13,16 @@ if [ -z "$CHECKS" ]; then CHECKS=$(python3 -c "import json;print(json.load(open(
 # a change written against an earlier commit of /repo may carry a rebased copy of its patch
 PATCH="$DIR/patch.diff"
 [ -f "$DIR/patch.rebased.diff" ] && PATCH="$DIR/patch.rebased.diff"
-git -C $REPO apply "$PATCH" 2>/dev/null || git -C $REPO apply --3way "$PATCH" 2>/dev/null || { git -C $REPO checkout -- . ; echo "seeded=$ID patch does not apply to the current tree"; exit 2; }
-git -C $REPO reset -q 2>/dev/null
-trap 'git -C $REPO checkout -- . ; git -C $REPO clean -fdq' EXIT
+if ! git -C $REPO apply "$PATCH" 2>/dev/null; then
+  # written against an earlier commit: try a three-way merge; conflicts mean it no longer applies
+  git -C $REPO apply --3way "$PATCH" >/dev/null 2>&1
+  if [ -n "$(git -C $REPO diff --name-only --diff-filter=U)" ] || [ -z "$(git -C $REPO status --porcelain)" ]; then
+    git -C $REPO reset -q --hard; git -C $REPO clean -fdq
+    echo "seeded=$ID patch does not apply to the current tree (written against an earlier commit; a later fix rewrote the same lines)"; exit 2
+  fi
+  git -C $REPO reset -q
+fi
+trap 'git -C $REPO reset -q --hard; git -C $REPO clean -fdq' EXIT
 for C in $CHECKS; do
   OUT=$(cd /verif && timeout 1500 ./run.sh $C quick 2>&1)
   RC=$?
